@@ -39,14 +39,9 @@ def contains_quorum(t):
 
 
 def comparisons(prog, body, ev=None):
-    ev = ev or Ev(prog, body)
-    for bi, si, s in body.assigns():
-        rv = s["rv"]
-        if rv["k"] != "bin" or rv["o"] not in CMP:
-            continue
-        a = resolve_upvars(prog, ev.operand(rv["a"], (bi, si)), body)
-        b = resolve_upvars(prog, ev.operand(rv["b"], (bi, si)), body)
-        yield bi, si, s, rv["o"], a, b
+    from .gate import comparisons as cmps
+    for c in cmps(prog, body, ev):
+        yield c["sw_block"], c["stmt"], {"lhs": c["lhs"], "line": c["line"]}, c["op"], c["a"], c["b"]
 
 
 def normalise(op, a, b):
@@ -83,6 +78,9 @@ def check_all(chk, prog, rule):
                 else:
                     chk.fail(rule, fn, "quorum-shape:%s" % show(count), "value compared with a count is derived from the replication factor but is not rf/2+1: %s" % show(q), body, s["line"])
                     continue
+            if linear(count)[1] != 0:
+                chk.fail(rule, fn, "quorum-count-offset:%s" % show(linear(count)[0]), "the count compared with the quorum is shifted by a constant (%s): the boundary is no longer `count >= rf/2+1`" % show(count), body, s["line"])
+                continue
             if op2 in ("Ge", "Lt"):
                 chk.ok(rule, "%s: `%s %s quorum` (boundary at rf/2+1)" % (fn.split("::")[-1], show(count), op2), body.where(s["line"]))
             else:
@@ -102,8 +100,8 @@ def count_gate_dominates(prog, body, block, count_field, ev=None):
         count, q, op2 = nz
         if not any(isinstance(x, tuple) and x and x[0] == "field" and x[2] == count_field for x in walk(count)):
             continue
-        if not quorum_shape(q):
-            seen.append("%s %s %s (not rf/2+1)" % (show(count), op2, show(q)))
+        if not quorum_shape(q) or linear(count)[1] != 0:
+            seen.append("%s %s %s (not count >= rf/2+1)" % (show(count), op2, show(q)))
             continue
         sw = switch_on(body, bi, s["lhs"]["l"])
         if sw is None:
